@@ -34,7 +34,7 @@ class C13(ProgramProperty):
             "(bind_namespaces='none', incl. a default namespace), upgrade_prefix_map in two dictionary orders, and "
             "from JSON files given as str and as Path; records, bimap and expand / compress / standardize answers "
             "are read from every loaded converter. Non-trivial = the map is non-bijective or a reverse-map group has "
-            "two URI prefixes of the same minimal length.")
+            "two URI prefixes of the same minimal length. File names include local names that look like 'scheme:rest'. In 40 % of the cases a loaded converter is curated (merge) and the same data is loaded again.")
 
     def budget(self, tier):
         return 1200 if tier == "quick" else 30000
